@@ -269,8 +269,26 @@ def render(spec):
     self_flag = bool(spec.get("meta", {}).get("self"))
     # canonical order (not dict insertion order): a spec that went through a JSON file with sorted
     # keys must render to the same source, line for line
+    fact = {}
     for mid, m in sorted(spec["methods"].items()):
-        out.append(method_src(mid, m, self_flag))
+        if m.get("factory"):
+            fact.setdefault(m["body"][0], []).append((mid, m))
+        else:
+            out.append(method_src(mid, m, self_flag))
+    # methods made by a factory: several function objects from ONE def statement (closures)
+    for kind, lst in sorted(fact.items()):
+        slf = "self, " if self_flag else ""
+        name = lst[0][1]["params"][0][0]
+        ret = "(mid, call_next(%s))" % name if kind == "next" else "(mid,)"
+        out.append(
+            f"def _factory_{kind}(mid, T0):\n"
+            f"    def fm({slf}{name}: T0):\n"
+            f"        LOG.append(mid)\n"
+            f"        return {ret}\n"
+            f"    return fm\n"
+        )
+        for mid, m in lst:
+            out.append(f"{mid} = _factory_{kind}({mid!r}, {ann_src(m['params'][0][2])})\n")
     return "\n".join(out)
 
 
